@@ -10,6 +10,7 @@ import Biogo.Proofs.ContFrame
 import Biogo.Proofs.ContGrid
 import Biogo.Proofs.ContCons
 import Biogo.Proofs.ContAln
+import Biogo.Proofs.ContAppend
 import Biogo.Generated.Alphabets
 
 namespace Biogo.Properties.C07
@@ -296,5 +297,86 @@ theorem append_each_exact_aln (cx : Ctx) (h : Cells) (a : Aln) (rows : Nat) (run
   · intro j s hs
     obtain ⟨e1, e2, _⟩ := hnews j s hs
     exact ⟨e1, e2⟩
+
+/-! ### AppendEach / AppendColumns on row-stored multis (Go `append`: in place iff capacity) -/
+
+/-- **append_exact (multi.Multi, AppendEach).** With one run per row `AppendEach` reports no
+    error and row `i` afterwards shows its old letters followed by exactly run `i` (letters and
+    qualities for a `QSeq` row, letters for a `Seq` row), starts where it started and ends
+    `len(run_i)` later — whatever the spare capacity of the rows (in-place and reallocating
+    appends alike); the rows stay in pairwise different arrays and no other array changes. -/
+theorem append_each_exact_multi (cx : Ctx) (h : Cells) (m : Multi) (runs : List (List QL))
+    (hwf : RowsCapWF h m.rows) (hr : runs.length = m.nrows) :
+    ∃ h' m', m.appendEach cx h runs = some (h', m') ∧ m'.rows.length = m.rows.length ∧
+      (∀ (i : Nat) (r : Lin), m.rows[i]? = some r → ∃ r', m'.rows[i]? = some r' ∧
+        r'.letters h' = r.letters h ++ (runs.getD i []).map (fun c => Lin.shown r.q (Lin.stored r.q c)) ∧
+        r'.start = r.start ∧ r'.«end» = r.«end» + (runs.getD i []).length ∧
+        r'.q = r.q ∧ r'.name = r.name ∧ r'.strand = r.strand) ∧
+      RowsCapWF h' m'.rows ∧
+      (∀ b, (∀ r ∈ m.rows, r.s.arr ≠ b) → b < h.arrays.length → h'.arr b = h.arr b) := by
+  obtain ⟨hlen, hrows, hwf', hfr⟩ := appendRows_spec cx (fun k => runs.getD k []) h m.rows hwf
+  refine ⟨_, { m with rows := _ }, ?_, hlen, hrows, hwf', hfr⟩
+  simp only [Multi.appendEach, hr, bne_self_eq_false, Bool.false_eq_true, if_false]
+
+/-- **append_exact (multi.Multi, AppendColumns).** When every column has one entry per row,
+    row `i` is extended by exactly `a[0][i], a[1][i], …`. -/
+theorem append_columns_exact_multi (cx : Ctx) (h : Cells) (m : Multi) (colsIn : List (List QL))
+    (hwf : RowsCapWF h m.rows) (hc : ∀ c ∈ colsIn, c.length = m.nrows) :
+    ∃ h' m', m.appendColumns cx h colsIn = some (h', m') ∧ m'.rows.length = m.rows.length ∧
+      (∀ (i : Nat) (r : Lin), m.rows[i]? = some r → ∃ r', m'.rows[i]? = some r' ∧
+        r'.letters h' = r.letters h ++
+          (colsIn.map fun c => c.getD i zeroQL).map (fun c => Lin.shown r.q (Lin.stored r.q c)) ∧
+        r'.start = r.start ∧ r'.«end» = r.«end» + colsIn.length ∧
+        r'.q = r.q ∧ r'.name = r.name ∧ r'.strand = r.strand) ∧
+      RowsCapWF h' m'.rows ∧
+      (∀ b, (∀ r ∈ m.rows, r.s.arr ≠ b) → b < h.arrays.length → h'.arr b = h.arr b) := by
+  obtain ⟨hlen, hrows, hwf', hfr⟩ :=
+    appendRows_spec cx (fun k => colsIn.map fun c => c.getD k zeroQL) h m.rows hwf
+  have hok : colsIn.any (fun c => c.length != m.nrows) = false := by
+    apply List.any_eq_false.mpr
+    intro c hcm
+    simp [hc c hcm]
+  refine ⟨_, { m with rows := _ }, ?_, hlen, ?_, hwf', hfr⟩
+  · simp only [Multi.appendColumns, hok, Bool.false_eq_true, if_false]
+  · intro i r hi
+    obtain ⟨r', h1, h2⟩ := hrows i r hi
+    refine ⟨r', h1, h2.1, h2.2.1, ?_, h2.2.2.2⟩
+    have := h2.2.2.1
+    simp only [List.length_map] at this
+    exact this
+
+/-! ### Flush -/
+
+/-- **flush_preserves.** "Flush pads ragged rows with the fill letter so that all rows span
+    the alignment while every original letter keeps its position": for a well-formed multi
+    with span `[S,E)`, after `Flush(where, fill)` every row starts at `S` if `where` has the
+    `seq.Start` bit (else where it started) and ends at `E` if it has the `seq.End` bit (else
+    where it ended); it shows `fill` at the positions gained on either side and, between them,
+    exactly the letters and qualities it showed before — at the same absolute positions, since
+    the row's start moved left by exactly the number of letters prepended.  (Including the
+    code's early return when `IsFlush(where)` already holds and its one-row special case.) -/
+theorem flush_preserves (cx : Ctx) (h : Cells) (m : Multi) (wh : Nat) (fill : UInt8)
+    (hwf : RowsCapWF h m.rows) (hr : m.InRange) :
+    All2 (fun r r' =>
+        r'.start = (if wh % 2 == 1 then m.start else r.start) ∧
+        r'.«end» = (if (wh / 2) % 2 == 1 then m.«end» else r.«end») ∧
+        r'.letters (m.flush cx h wh fill).1 =
+          List.replicate (r.start - r'.start).toNat (Lin.shown r.q ⟨fill, 0⟩) ++ r.letters h ++
+          List.replicate (r'.«end» - r.«end»).toNat (Lin.shown r.q ⟨fill, 0⟩) ∧
+        r'.q = r.q ∧ r'.name = r.name ∧ r'.strand = r.strand)
+      m.rows (m.flush cx h wh fill).2.rows :=
+  Multi.flush_spec cx h m wh fill hwf hr
+
+-- non-vacuity: rows [0,4) and [5,7) flushed at both ends with '-'
+example :
+    let cx : Ctx := { comp := fun l => l, gap := 45, amb := 110,
+                      alpha := ⟨[], 0, fun _ => false, fun _ => -1, 45, 110, false⟩, grow := growExact }
+    let w := initWorld cx "multi" 1 [⟨false, 0, 1, 0, [⟨65, 0⟩, ⟨67, 0⟩, ⟨71, 0⟩, ⟨84, 0⟩]⟩,
+                                    ⟨true, 5, 1, 1, [⟨71, 30⟩, ⟨71, 31⟩]⟩]
+    (match w.objs with
+     | [.multi m] =>
+        ((m.flush cx w.cells 3 45).2.rows.map fun r => (r.start, r.«end», (r.letters (m.flush cx w.cells 3 45).1).map (·.L)))
+          == [(0, 7, [65, 67, 71, 84, 45, 45, 45]), (0, 7, [45, 45, 45, 45, 45, 71, 71])]
+     | _ => false) = true := by decide
 
 end Biogo.Properties.C07
